@@ -3,6 +3,7 @@ package main
 import (
 	"fmt"
 	"go/constant"
+	"go/token"
 	"go/types"
 	"strings"
 
@@ -316,4 +317,247 @@ func (fr *frame) nativeSlices(fn *ssa.Function, c *ssa.CallCommon, args []*Val, 
 	u.assume(reach, fmt.Sprintf("(=> (>= %s 0) %s)", r, pr))
 	u.assume(reach, fmt.Sprintf("(forall ((%s Int)) (=> (and %s (or (< %s %s) (= %s (- 1)))) (not %s)))", k, inRange, k, r, r, pk))
 	return &Val{t: r}
+}
+
+// stdGeneric: (package path, name) of the generic standard-library function fn is (an instantiation of).
+func stdGeneric(fn *ssa.Function) (string, string) {
+	o := fn
+	if fn.Origin() != nil {
+		o = fn.Origin()
+	}
+	if o.Pkg == nil || o.Pkg.Pkg == nil {
+		return "", ""
+	}
+	return o.Pkg.Pkg.Path(), o.Name()
+}
+
+// variadicElems: the SSA values placed in the argument list of a variadic call (a slice of a local array filled by
+// constant-index stores), or nil, false.
+func variadicElems(v ssa.Value) ([]ssa.Value, bool) {
+	switch a := v.(type) {
+	case *ssa.Const:
+		return nil, true
+	case *ssa.Slice:
+		arr, ok := a.X.(*ssa.Alloc)
+		if !ok || a.Low != nil || a.High != nil || arr.Referrers() == nil {
+			return nil, false
+		}
+		at, ok := arr.Type().Underlying().(*types.Pointer).Elem().Underlying().(*types.Array)
+		if !ok {
+			return nil, false
+		}
+		elems := make([]ssa.Value, at.Len())
+		for _, r := range *arr.Referrers() {
+			ia, ok := r.(*ssa.IndexAddr)
+			if !ok {
+				if r == ssa.Instruction(a) {
+					continue
+				}
+				if _, isDbg := r.(*ssa.DebugRef); isDbg {
+					continue
+				}
+				return nil, false
+			}
+			k, ok := ia.Index.(*ssa.Const)
+			if !ok || ia.Referrers() == nil {
+				return nil, false
+			}
+			idx, ok := constant.Int64Val(k.Value)
+			if !ok || idx < 0 || int(idx) >= len(elems) {
+				return nil, false
+			}
+			for _, rr := range *ia.Referrers() {
+				s, ok := rr.(*ssa.Store)
+				if !ok || s.Addr != ssa.Value(ia) {
+					return nil, false
+				}
+				elems[idx] = s.Val
+			}
+		}
+		for _, e := range elems {
+			if e == nil {
+				return nil, false
+			}
+		}
+		return elems, true
+	}
+	return nil, false
+}
+
+// nativeStd: cmp.Or (the first argument that is not the zero value, else the zero value) and slices.Concat (a new slice
+// holding the arguments' elements one after the other), for argument lists written out at the call.
+func (fr *frame) nativeStd(fn *ssa.Function, c *ssa.CallCommon, args []*Val, st *State, reach string) *Val {
+	pkg, name := stdGeneric(fn)
+	if c == nil || len(c.Args) != 1 {
+		return nil
+	}
+	u := fr.u
+	s := u.sorts
+	switch {
+	case pkg == "cmp" && name == "Or":
+		elems, ok := variadicElems(c.Args[0])
+		if !ok || len(elems) == 0 {
+			return nil
+		}
+		et := elems[0].Type()
+		if _, basic := et.Underlying().(*types.Basic); !basic {
+			return nil
+		}
+		zero := s.zero(et)
+		term := zero
+		for i := len(elems) - 1; i >= 0; i-- {
+			v := fr.valTerm(fr.valOf(elems[i]), st)
+			term = ite(fmt.Sprintf("(not (= %s %s))", v, zero), v, term)
+		}
+		return &Val{t: fr.def("or", et, term)}
+	case pkg == "slices" && name == "Concat":
+		if fr.pure {
+			return nil
+		}
+		elems, ok := variadicElems(c.Args[0])
+		if !ok {
+			return nil
+		}
+		resT, ok := fn.Signature.Results().At(0).Type().Underlying().(*types.Slice)
+		if !ok {
+			return nil
+		}
+		et := resT.Elem()
+		es := s.sortOf(et)
+		hname := "E:" + s.typeKey(et)
+		hs := "(Array Int (Array Int " + es + "))"
+		h := u.heapGet(st, hname, hs)
+		arr := fr.allocRef(st)
+		cont := u.declare("concat", "(Array Int "+es+")")
+		at := s.atFn(et)
+		off := "0"
+		for _, e := range elems {
+			sv := fr.valTerm(fr.valOf(e), st)
+			k := u.fresh("k")
+			u.assume(reach, fmt.Sprintf("(forall ((%s Int)) (! (=> (and (<= %s %s) (< %s (+ %s (s-len %s)))) (= (select %s %s) (%s (select %s (s-arr %s)) %s (- %s %s)))) :pattern ((select %s %s))))",
+				k, off, k, k, off, sv, cont, k, at, h, sv, sv, k, off, cont, k))
+			off = u.define("coff", "Int", fmt.Sprintf("(+ %s (s-len %s))", off, sv))
+		}
+		u.heapSet(st, hname, hs, fmt.Sprintf("(store %s %s %s)", h, arr, cont))
+		return &Val{t: u.define("cat", "Slice", fmt.Sprintf("(mk-slice %s 0 %s %s)", arr, off, off))}
+	}
+	return nil
+}
+
+// constTable: a package-level slice variable that is a constant table - initialised once, in the package initialiser,
+// from a composite literal of string / integer / boolean constants, never assigned again, never written through and
+// never handed to code outside /repo - has the literal's elements as its contents, always. Returns the elements, or
+// nil, false. (Reading such a variable re-creates the literal: nobody can tell the difference.)
+func (e *Engine) constTable(g *ssa.Global) ([]*ssa.Const, bool) {
+	if v, ok := e.tables[g]; ok {
+		return v, v != nil
+	}
+	e.tables[g] = nil
+	sl, ok := g.Type().Underlying().(*types.Pointer).Elem().Underlying().(*types.Slice)
+	if !ok {
+		return nil, false
+	}
+	if b, ok := sl.Elem().Underlying().(*types.Basic); !ok || b.Info()&(types.IsString|types.IsInteger|types.IsBoolean) == 0 {
+		return nil, false
+	}
+	if g.Pkg == nil || !strings.HasPrefix(g.Pkg.Pkg.Path(), modPath) || e.assignedOutsideInit(g) != "" {
+		return nil, false
+	}
+	// the one store in the package initialiser
+	init := g.Pkg.Func("init")
+	if init == nil {
+		return nil, false
+	}
+	var elems []*ssa.Const
+	stores := 0
+	for _, b := range init.Blocks {
+		for _, in := range b.Instrs {
+			st, ok := in.(*ssa.Store)
+			if !ok || st.Addr != ssa.Value(g) {
+				continue
+			}
+			stores++
+			vals, ok := variadicElems(st.Val)
+			if !ok {
+				return nil, false
+			}
+			for _, v := range vals {
+				c, isC := v.(*ssa.Const)
+				if !isC {
+					return nil, false
+				}
+				elems = append(elems, c)
+			}
+		}
+	}
+	if stores != 1 {
+		return nil, false
+	}
+	// every use of the variable's value, anywhere in /repo, only reads
+	for _, fn := range e.funcs {
+		for _, fns := range append([]*ssa.Function{fn}, fn.AnonFuncs...) {
+			for _, b := range fns.Blocks {
+				for _, in := range b.Instrs {
+					ld, ok := in.(*ssa.UnOp)
+					if !ok || ld.Op != token.MUL || ld.X != ssa.Value(g) || ld.Referrers() == nil {
+						continue
+					}
+					for _, r := range *ld.Referrers() {
+						switch x := r.(type) {
+						case *ssa.DebugRef, *ssa.Range:
+						case *ssa.IndexAddr:
+							if x.Referrers() != nil {
+								for _, rr := range *x.Referrers() {
+									if s, isStore := rr.(*ssa.Store); isStore && s.Addr == ssa.Value(x) {
+										return nil, false
+									}
+								}
+							}
+						case *ssa.Call:
+							if bi, isB := x.Call.Value.(*ssa.Builtin); isB && (bi.Name() == "len" || bi.Name() == "cap") {
+								continue
+							}
+							callee := x.Call.StaticCallee()
+							if callee == nil || x.Call.IsInvoke() {
+								return nil, false
+							}
+							if slicesFunc(callee) == "" {
+								if !isRepoFunc(callee) {
+									return nil, false
+								}
+								for k := range e.modsetOf(callee) {
+									if strings.HasPrefix(k, "PE:") || strings.HasPrefix(k, "E:") || k == "*" {
+										return nil, false
+									}
+								}
+							}
+						default:
+							return nil, false
+						}
+					}
+				}
+			}
+		}
+	}
+	e.tables[g] = elems
+	return elems, true
+}
+
+// loadConstTable materialises a constant table at the point where its variable is read.
+func (fr *frame) loadConstTable(g *ssa.Global, elems []*ssa.Const, st *State) *Val {
+	u := fr.u
+	s := u.sorts
+	et := g.Type().Underlying().(*types.Pointer).Elem().Underlying().(*types.Slice).Elem()
+	es := s.sortOf(et)
+	name := "E:" + s.typeKey(et)
+	hs := "(Array Int (Array Int " + es + "))"
+	h := u.heapGet(st, name, hs)
+	arr := fr.allocRef(st)
+	cont := fmt.Sprintf("((as const (Array Int %s)) %s)", es, s.zero(et))
+	for i, c := range elems {
+		cont = fmt.Sprintf("(store %s %d %s)", cont, i, fr.constVal(c).t)
+	}
+	u.heapSet(st, name, hs, fmt.Sprintf("(store %s %s %s)", h, arr, cont))
+	u.abstract("constant-table-read")
+	return &Val{t: u.define("table", "Slice", fmt.Sprintf("(mk-slice %s 0 %d %d)", arr, len(elems), len(elems)))}
 }
